@@ -1,10 +1,197 @@
-import TlxVerif.Model.C16RingBuffer
+import TlxVerif.Model.C16Machine
 import TlxVerif.Model.C16SimpleVector
+import TlxVerif.Proofs.C16Refine
+/-!
+# C16 — RingBuffer is a bounded deque; RingBuffer and SimpleVector keep element lifetimes exact
+
+Model: `Model/C16RingBuffer.lean` (member functions), `Model/C16Machine.lean`
+(`stepOp`: the operation language executed by the driver; `specStep`: the
+bounded-deque specification with the documented preconditions),
+`Model/C16SimpleVector.lean`.  Helper lemmas: `Proofs/C16*.lean`.
+-/
 namespace TlxVerif.C16
+
+/-- run a history on the ring-buffer machine (stops at the first lifetime error) -/
+def runOps (rs : Regs) : List Op → Option (Regs × List Out)
+  | [] => some (rs, [])
+  | op :: ops => do
+      let (rs1, o) ← stepOp rs op
+      let (rs2, os) ← runOps rs1 ops
+      pure (rs2, o :: os)
+
+/-- run a history on the bounded-deque specification (stops when an operation is not permitted) -/
+def specOps (as : ARegs) : List Op → Option (ARegs × List Out)
+  | [] => some (as, [])
+  | op :: ops => do
+      let (as1, o) ← specStep as op
+      let (as2, os) ← specOps as1 ops
+      pure (as2, o :: os)
+
+/-- **Refinement for every history.**  For every operation history that respects
+the capacity (i.e. that the bounded-deque specification permits), started from
+corresponding states, the ring buffer executes the whole history without
+constructing over a live object, destroying raw storage or reading a dead slot,
+gives exactly the specification's answers (front, back, indexing, size,
+emptiness, element listings), and ends in a corresponding state. -/
+theorem history_refines {rs : Regs} {as as' : ARegs} {ops : List Op} {outs : List Out}
+    (h : RegsRep rs as) (hs : specOps as ops = some (as', outs)) :
+    ∃ rs', runOps rs ops = some (rs', outs) ∧ RegsRep rs' as' := by
+  induction ops generalizing rs as outs with
+  | nil =>
+    simp [specOps] at hs; obtain ⟨rfl, rfl⟩ := hs
+    exact ⟨rs, rfl, h⟩
+  | cons op ops ih =>
+    simp only [specOps, Option.bind_eq_bind] at hs
+    cases h1 : specStep as op with
+    | none => simp [h1] at hs
+    | some p1 =>
+      obtain ⟨as1, o⟩ := p1
+      simp only [h1, Option.bind_some] at hs
+      cases h2 : specOps as1 ops with
+      | none => simp [h2] at hs
+      | some p2 =>
+        obtain ⟨as2, os⟩ := p2
+        simp [h2] at hs; obtain ⟨rfl, rfl⟩ := hs
+        obtain ⟨rs1, hr1, hrep1⟩ := step_refines h h1
+        obtain ⟨rs2, hr2, hrep2⟩ := ih hrep1 h2
+        exact ⟨rs2, by simp [runOps, hr1, hr2], hrep2⟩
+
+theorem regsRep_empty (n : Nat) : RegsRep (List.replicate n none) (List.replicate n none) := by
+  refine ⟨by simp, fun i => ?_⟩
+  unfold getObj agetObj
+  by_cases hi : i < n <;> simp [List.getElem?_replicate, hi] <;> exact .none
+
+/-- **C16, deque part:** every permitted history over `n` initially empty registers -/
+theorem ringbuffer_is_bounded_deque (n : Nat) {ops : List Op} {as' : ARegs} {outs : List Out}
+    (hs : specOps (List.replicate n none) ops = some (as', outs)) :
+    ∃ rs', runOps (List.replicate n none) ops = some (rs', outs) ∧ RegsRep rs' as' :=
+  history_refines (regsRep_empty n) hs
+
+/-! ### Element lifetimes -/
+
+/-- live element objects in all buffers of a register file -/
+def liveObjects : Regs → Nat
+  | [] => 0
+  | none :: rs => liveObjects rs
+  | some r :: rs => (r.slots.filter Option.isSome).length + liveObjects rs
+
+/-- elements stored in all deques of an abstract register file -/
+def storedElems : ARegs → Nat
+  | [] => 0
+  | some (.buf _ xs) :: as => xs.length + storedElems as
+  | _ :: as => storedElems as
+
+theorem RegsRep.tail {a : Option RB} {b : Option AObj} {rs : Regs} {as : ARegs}
+    (h : RegsRep (a :: rs) (b :: as)) : ObjRep a b ∧ RegsRep rs as := by
+  refine ⟨by simpa [getObj, agetObj] using h.2 0, by simpa using h.1, fun i => ?_⟩
+  simpa [getObj, agetObj] using h.2 (i + 1)
+
+/-- **C16, lifetime part (count):** in every reachable state the number of live
+element objects equals the number of stored elements. -/
+theorem live_eq_stored {rs : Regs} {as : ARegs} (h : RegsRep rs as) : liveObjects rs = storedElems as := by
+  induction rs generalizing as with
+  | nil =>
+    have : as = [] := List.length_eq_zero_iff.mp (by simpa using h.1.symm)
+    subst this; rfl
+  | cons a rs ih =>
+    cases as with
+    | nil => exact absurd h.1 (by simp)
+    | cons b as =>
+      obtain ⟨hab, ht⟩ := h.tail
+      have := ih ht
+      cases hab with
+      | none => simpa [liveObjects, storedElems] using this
+      | shell hsh _ => simp [liveObjects, storedElems, hsh.slots, this]
+      | buf hr _ => simp [liveObjects, storedElems, hr.live_count, this]
+
+/-- **C16, lifetime part (which):** a slot of `data_` holds a live element object
+if and only if it is one of the currently stored elements (offsets `0 .. size-1`
+from `begin_`, cyclically), and then it holds exactly that element. -/
+theorem slot_alive_iff_stored {k : Nat} {r : RB} {xs : List Elem} (h : Rep k r xs) {j : Nat} (hj : j < 2 ^ k) :
+    r.slots[(r.b + j) % 2 ^ k]? = some xs[j]? ∧
+    ((r.slots[(r.b + j) % 2 ^ k]?).join.isSome = decide (j < xs.length)) :=
+  ⟨h.slot j hj, h.alive_iff hj⟩
+
+/-- every permitted history ends with live objects = stored elements, and destroying
+all containers afterwards leaves nothing alive -/
+theorem lifetimes_exact (n : Nat) {ops : List Op} {as' : ARegs} {outs : List Out}
+    (hs : specOps (List.replicate n none) ops = some (as', outs)) :
+    ∃ rs', runOps (List.replicate n none) ops = some (rs', outs) ∧ liveObjects rs' = storedElems as' := by
+  obtain ⟨rs', hr, hrep⟩ := ringbuffer_is_bounded_deque n hs
+  exact ⟨rs', hr, live_eq_stored hrep⟩
+
+/-- the destructor of any reachable buffer releases storage with no live object in it -/
+theorem dtor_leaves_nothing {o : Option RB} {a : AObj} (h : ObjRep o (some a)) :
+    ∃ r, o = some r ∧ r.dtor = some 0 := by
+  cases h with
+  | shell hsh _ => exact ⟨_, rfl, hsh.dtor⟩
+  | buf hr _ => exact ⟨_, rfl, hr.dtor⟩
+
+/-- the capacity chosen by the constructor is a power of two strictly above `max_size` -/
 theorem roundUpPow2_ge (n : Nat) : n ≤ roundUpPow2 n := by
   unfold roundUpPow2
   split
   · omega
   · have := @Nat.lt_log2_self (n - 1)
     omega
+
+/-! ### Non-vacuity: concrete histories the specification permits -/
+
+/-- wrap-around of both cursors, copy, move, assignment, deallocate/allocate, destruction -/
+def demoOps : List Op :=
+  [.new 0 3, .pushF 0 1, .pushB 0 2, .pushF 0 3, .popB 0, .pushB 0 4, .at 0 2, .copyCtor 1 0,
+   .popF 0, .popF 0, .pushB 0 5, .pushB 0 6, .moveCtor 2 0, .alloc 0 1, .assign 0 1, .front 0,
+   .dealloc 1, .alloc 1 5, .moveAssign 1 2, .back 1, .size 1, .dtor 0, .dtor 1, .dtor 2]
+
+example : (specOps (List.replicate 3 none) demoOps).isSome = true := by decide
+example : (runOps (List.replicate 3 none) demoOps).map (·.2) =
+    (specOps (List.replicate 3 none) demoOps).map (·.2) := by decide
+/-- a history that exceeds the capacity is *not* permitted by the specification … -/
+example : specOps (List.replicate 1 none) [.new 0 1, .pushB 0 1, .pushB 0 2] = none := by decide
+/-- … and indeed the unguarded C++ code would then construct over a live object -/
+example : runOps (List.replicate 1 none) [.new 0 1, .pushB 0 1, .pushB 0 2, .pushB 0 3] = none := by decide
+
+/-! ### SimpleVector (default mode) -/
+
+/-- **SimpleVector lifetimes:** every operation changes the number of live element
+objects by exactly (constructed − destroyed), and the live objects are exactly the
+`size()` stored ones. -/
+def SV.Ok (v : SV) : Prop := v.live = v.size ∧ (v.arr = none → v.size = 0)
+
+theorem sv_new (n : Nat) : (SV.new n).1.Ok ∧ (SV.new n).1.live = (SV.new n).2.1 := by
+  unfold SV.new; split <;> simp [SV.Ok, SV.live, createArray]
+
+theorem sv_resize (v : SV) (n : Nat) (h : v.Ok) :
+    (v.resize n).1.Ok ∧ (v.resize n).1.live + (v.resize n).2.2 = v.live + (v.resize n).2.1 ∧
+    (v.resize n).1.size = n := by
+  unfold SV.resize
+  cases ha : v.arr with
+  | none => simp [SV.Ok, SV.live, createArray, ha]
+  | some old =>
+    have hl : old.length = v.size := by simpa [SV.Ok, SV.live, ha] using h.1
+    simp [SV.Ok, SV.live, createArray, moveInto, ha, hl]
+    omega
+
+/-- `resize` keeps the first `min(old size, new size)` elements and value-initialises the rest -/
+theorem sv_resize_contents (v : SV) (n : Nat) (old : List Int) (ha : v.arr = some old) (hl : old.length = v.size) :
+    (v.resize n).1.arr = some (old.take (min v.size n) ++ List.replicate (n - min v.size n) 0) := by
+  simp [SV.resize, ha, moveInto, createArray]
+
+theorem sv_destroy (v : SV) : (v.destroy).1.Ok ∧ (v.destroy).1.live + (v.destroy).2.2 = v.live := by
+  simp [SV.destroy, SV.Ok, SV.live]
+
+theorem sv_dtor (v : SV) : v.dtor.2 = v.live := rfl
+
+theorem sv_moveAssign (dst src : SV) (hs : src.Ok) :
+    (dst.moveAssign src).1.Ok ∧ (dst.moveAssign src).2.1.Ok ∧
+    (dst.moveAssign src).1.live + (dst.moveAssign src).2.1.live + (dst.moveAssign src).2.2.2 = dst.live + src.live := by
+  simp [SV.moveAssign, SV.Ok, SV.live] at *
+  exact ⟨hs, by omega⟩
+
+theorem sv_fill_set (v : SV) (h : v.Ok) (x : Int) (i : Nat) : (v.fill x).Ok ∧ (v.set i x).Ok := by
+  unfold SV.Ok SV.live at *
+  cases ha : v.arr <;> simp [SV.fill, SV.set, ha] at * <;> exact h
+
+example : ({ size := 2, arr := some [7, 8] } : SV).Ok := by simp [SV.Ok, SV.live]
+
 end TlxVerif.C16
